@@ -4,7 +4,9 @@ directives, written so that the expected directives are known BY CONSTRUCTION --
 appears only inside a string literal (no directive) and comment-only lines (block directives)."""
 import itertools
 
-CODES = ['', 'x = 1', "print('a')", "s = '# xdoctest: +SKIP'", 's = "# doctest: +ELLIPSIS"', 'y = [1,\n     2]', "z = '''a\nb'''"]
+CODES = ['', 'x = 1', "print('a')", "s = '# xdoctest: +SKIP'", 's = "# doctest: +ELLIPSIS"', 'y = [1,\n     2]', "z = '''a\nb'''",
+         # statements made of string literals only (an expression statement whose value is compared with the want): still code
+         "'abc'", "'a' 'b'", "'''a\nb'''", "f'abc'", "b'xy'", '"# not a comment"']
 PREFIXES = ['xdoctest', 'doctest', 'xdoc', 'XDOCTEST']
 # (option text, expected [(name, positive, args)])
 OPTS = [
@@ -49,6 +51,6 @@ def run(eng, tier, seed):
         if cex is not None:
             break
     return {'bounded': [{'name': 'C04.directive-extraction',
-                         'bound': '%d code fragments (incl. directive syntax inside string literals, multi-line statements) x %d prefixes x %d '
+                         'bound': '%d code fragments (incl. directive syntax inside string literals, multi-line statements, statements made of string literals only) x %d prefixes x %d '
                                   'option texts x with / without the comment, on the real Directive.extract' % (len(CODES), len(PREFIXES), len(OPTS)),
                          'evaluations': n, 'counterexample': cex}]}
